@@ -17,7 +17,7 @@ pub fn def() -> CheckDef {
         salt: 0xC15,
         level: "exploration",
         rule: "random networks x closed formulae needing 0..3 spare variable sets, each evaluated on graphs built with k = need, need+1, need+2, need+5 \
-               spare sets and on a graph whose variables have different numbers (>= need) of spare copies: (a) all sanitised results are the identical BDD; (b) the sanitised BDD lives in the canonical context (same number of \
+               spare sets and on a graph whose variables have different numbers (>= need) of spare copies; plus one graph whose unit set admits only some of the colours (sanitised = raw demanded, not equality with the others): (a) all sanitised results are the identical BDD; (b) the sanitised BDD lives in the canonical context (same number of \
                BDD variables as SymbolicAsyncGraph::new(bn), combinable with that graph's sets); (c) for every state and enumerated colour the \
                sanitised and the raw result agree; (d) raw results for different k agree point-wise. Non-trivial: result neither empty nor unit \
                and the formula has a state variable; distinct by (network, formula).",
@@ -60,9 +60,17 @@ fn run(rng: &mut Rng, idx: u64, tier: Tier) -> CaseOut {
     let mut sanitised = Vec::new();
     let mut raw_states = Vec::new();
     // the last graph gives every variable its own number (>= need) of spare copies
-    for extra in [0u16, 1, 2, 5, 99] {
-        let k = need + if extra == 99 { 0 } else { extra };
-        let built = if extra == 99 {
+    // ... and the one before it admits only a subset of the colours (custom unit set)
+    for extra in [0u16, 1, 2, 5, 98, 99] {
+        let k = need + if extra >= 98 { 0 } else { extra };
+        let built = if extra == 98 {
+            match libg::guarded(|| libg::build_sys_colour_restricted(&world.net, k, &world.cs.bits, rng)) {
+                Ok(Ok(Some((s, _)))) => Ok(s),
+                // no parameters, or no colour left after the restriction
+                Ok(Ok(None)) | Ok(Err(_)) => continue,
+                Err(p) => Err(format!("PANIC {p}")),
+            }
+        } else if extra == 99 {
             let counts: Vec<u16> = (0..world.n()).map(|_| need + rng.below(3) as u16).collect();
             match libg::guarded(|| libg::build_sys_uneven(&world.net, &counts, &world.cs.bits)) {
                 Ok(r) => r,
@@ -109,6 +117,9 @@ fn run(rng: &mut Rng, idx: u64, tier: Tier) -> CaseOut {
             );
             return out;
         }
+        if extra == 98 {
+            out.count("graphs_with_restricted_colours");
+        }
         let unit = sys.canon_graph.unit_colored_vertices();
         let combined = match crate::libg::guarded(|| (san.intersect(unit), san.union(unit), san.is_subset(unit))) {
             Ok(c) => c,
@@ -140,6 +151,10 @@ fn run(rng: &mut Rng, idx: u64, tier: Tier) -> CaseOut {
         if extra == 0 {
             let unit_raw = sys.graph.unit_colored_vertices();
             out.nontrivial = need >= 1 && !raw.is_empty() && &raw != unit_raw;
+        }
+        if extra == 98 {
+            // a different graph (fewer colours): only "sanitised = raw" and compatibility are demanded of it
+            continue;
         }
         sanitised.push((k, san));
         raw_states.push((k, rs));
